@@ -135,7 +135,7 @@ func edits1(base []alphh.Step, menu []alphh.Step) [][]alphh.Step {
 	return out
 }
 
-var executions, forwards, stimuli int
+var executions, forwards, stimuli, curItem int
 
 func run(sc scenario, steps []alphh.Step, check bool) (fwd []string) {
 	executions++
@@ -147,7 +147,7 @@ func run(sc scenario, steps []alphh.Step, check bool) (fwd []string) {
 	polled := map[string]int{}
 	for i, s := range steps {
 		stimuli++
-		ev.Journal(map[string]interface{}{"scenario": sc.Name, "steps": steps[:i+1]})
+		ev.Journal(map[string]interface{}{"name": sc.Name, "mainnet": sc.Mainnet, "tokens": sc.Tokens, "steps": steps[:i+1], "resume": curItem + 1})
 		for _, f := range w.Apply(s) {
 			forwards++
 			fwd = append(fwd, fmt.Sprintf("%d:%s:seq%d", i, f.Path, f.MP.Sequence))
@@ -206,9 +206,10 @@ func main() {
 	}
 	t0 := time.Now()
 	for bi, sc := range bs {
-		if bi%sn != si {
+		if bi%sn != si || bi < ev.Resume() {
 			continue
 		}
+		curItem = bi
 		// determinism self-test: the base scenario twice gives the same observations
 		a, b := run(sc, sc.Steps, false), run(sc, sc.Steps, false)
 		if fmt.Sprint(a) != fmt.Sprint(b) {
